@@ -16,7 +16,7 @@ class World(S.WorldComponent):
     mix = [("reliable", False, 3), ("reliable", True, 2), ("reliable-heavy-loss", False, 2), ("clean", False, 1),
            ("mixed-pr", False, 1)]
     quick = (32, 260)
-    thorough = (600, 500)
+    thorough = (300, 500)
     oracles = [S.oracle_no_crash, S.oracle_c01]
 
 
